@@ -24,15 +24,17 @@ func (q QualifierIO) Unpack() (string, string) {
 // String satisfies the fmt.Stringer interface.
 func (q QualifierIO) String() string {
 	name, value := q.Unpack()
+	// a double quote inside a quoted value is written twice
+	quoted := strings.ReplaceAll(value, "\"", "\"\"")
 	switch GetQualifierType(name) {
 	case QuotedQualifier:
-		return fmt.Sprintf("/%s=\"%s\"", name, value)
+		return fmt.Sprintf("/%s=\"%s\"", name, quoted)
 	case LiteralQualifier:
 		return fmt.Sprintf("/%s=%s", name, value)
 	case ToggleQualifier:
 		return "/" + name
 	default:
-		return fmt.Sprintf("/%s=\"%s\"", name, value)
+		return fmt.Sprintf("/%s=\"%s\"", name, quoted)
 	}
 }
 
@@ -215,9 +217,21 @@ func quotedQualifierParser(prefix string) pars.Parser {
 			state.Pop()
 			return err
 		}
+		token := append([]byte(nil), result.Token...)
+		for {
+			// a doubled quote inside the value: the quoted piece that follows continues it
+			c, err := pars.Next(state)
+			if err != nil || c != '"' {
+				break
+			}
+			if err := quoted(state, result); err != nil {
+				state.Pop()
+				return err
+			}
+			token = append(append(token, '"'), result.Token...)
+		}
 		state.Drop()
 		pars.EOL(state, pars.Void)
-		token := result.Token
 		i := bytes.Index(token, p)
 		for i >= 0 {
 			n := copy(token[i+1:], token[i+len(p):])
